@@ -436,6 +436,123 @@ def returned_below(rng, g):
     return spec
 
 
+def other_types(t):
+    names = ['int', 'str', 'list', 'dict', 'tuple']
+    return [n for n in names if not isinstance(t, ic.TYPES[n])] or ['frozenset']
+
+
+def rejected(rng, g, t, in_match=False, depth=1):
+    """a spec that raises a GlomError on the target `t` (a Switch key that is rejected, a failing Or / Coalesce
+    branch), of a random shape: a missing key, a type mismatch, a raising callable, a nested branching spec all of
+    whose branches fail, a chain that fails at a later step"""
+    miss = lambda: rng.choice([{'k': 'str', 's': 'zz'}, {'k': 'str', 's': 'zz.q'}, {'k': 't', 'steps': [['[', ic.enc('nope')]]},
+                               {'k': 't', 'steps': [['.', ic.enc('no_attr')]]}])
+    p = rng.random()
+    if p < 0.3:
+        return miss()
+    if p < 0.55:
+        ty = {'k': 'ty', 'name': rng.choice(other_types(t))}
+        return ty if in_match and rng.random() < 0.6 else {'k': 'match', 's': ty, 'dflt': None}
+    if p < 0.65:
+        return g.fn('raise_glom')
+    if depth <= 0:
+        return miss()
+    if p < 0.75:
+        return {'k': 'coalesce', 'subs': [rejected(rng, g, t, in_match, depth - 1) for _ in range(rng.randint(1, 2))],
+                'dflt': None, 'dflt_factory': None, 'skip': None, 'skip_exc': ['GlomError']}
+    if p < 0.85:
+        return {'k': 'or', 'cs': [rejected(rng, g, t, in_match, depth - 1) for _ in range(rng.randint(1, 2))], 'dflt': None}
+    if p < 0.93:
+        return {'k': 'tuple', 'xs': [{'k': 't', 'steps': []}] * rng.randint(0, 2) + [rejected(rng, g, t, in_match, depth - 1)]}
+    return {'k': 'switch', 'cases': [[rejected(rng, g, t, in_match, depth - 1), {'k': 't', 'steps': []}]], 'dflt': None}
+
+
+def raising_default(rng, g, t, depth=1):
+    """a `default=` that is itself a spec that raises (arg_val evaluates T, Spec and the containers holding them)"""
+    T0 = {'k': 't', 'steps': []}
+    tfail = lambda: {'k': 't', 'steps': [rng.choice([['.', ic.enc('foo')], ['[', ic.enc('zz')], ['[', ic.enc(99)]])]}
+    p = rng.random()
+    if p < 0.2:
+        return tfail()
+    if p < 0.35:
+        return {'k': 'specW', 's': rng.choice([{'k': 'str', 's': 'missing.key'}, {'k': 'str', 's': 'zz'}, tfail()]), 'scope': []}
+    if p < 0.5:
+        return {'k': 'specW', 's': g.fn(rng.choice(['raise_ve', 'raise_glom', 'raise_multiline'] + X_WRAPPABLE)), 'scope': []}
+    if p < 0.62:
+        # a container with a failing T leaf
+        if rng.random() < 0.5:
+            return {'k': 'dict', 'es': [[{'k': 'str', 's': 'u'}, T0], [{'k': 'str', 's': 'r'}, tfail()]][rng.randint(0, 1):]}
+        return {'k': 'list', 'xs': [{'k': 'lit', 'v': ic.enc(1)}, tfail()][rng.randint(0, 1):]}
+    if p < 0.74:
+        # a chain inside the default that fails at a later step
+        return {'k': 'specW', 's': {'k': rng.choice(['tuple', 'pipe']),
+                                    'xs': [T0] * rng.randint(1, 2) + [rejected(rng, g, t, False, 0)]}, 'scope': []}
+    if p < 0.86 or depth <= 0:
+        # a branching spec inside the default, all of whose branches fail
+        return {'k': 'specW', 's': {'k': 'coalesce', 'subs': [rejected(rng, g, t, False, 0) for _ in range(rng.randint(1, 2))],
+                                    'dflt': None, 'dflt_factory': None, 'skip': None, 'skip_exc': ['GlomError']}, 'scope': []}
+    # the default is again a branching spec with a raising default
+    return {'k': 'specW', 's': default_raises_host(rng, g, t, depth - 1), 'scope': []}
+
+
+HOSTS = ['switch', 'switch', 'switch', 'or', 'and', 'coalesce', 'match', 'check']
+
+
+def default_raises_host(rng, g, t, depth=1):
+    """a branching spec (Switch, Or, And, Coalesce, Match, Check) every branch of which is rejected on `t` and
+    whose default= is a spec that raises"""
+    host = rng.choice(HOSTS)
+    T0 = {'k': 't', 'steps': []}
+    in_match = host in ('switch', 'or', 'and') and rng.random() < 0.6
+    dflt = raising_default(rng, g, t, depth)
+    n = rng.randint(1, 3)
+    if host == 'switch':
+        j = {'k': 'switch', 'cases': [[rejected(rng, g, t, in_match), rng.choice([T0, {'k': 'lit', 'v': ic.enc(1)}])]
+                                      for _ in range(n)], 'dflt': dflt}
+    elif host == 'or':
+        j = {'k': 'or', 'cs': [rejected(rng, g, t, in_match) for _ in range(n)], 'dflt': dflt}
+    elif host == 'and':
+        oks = [T0] * rng.randint(0, 2) if not in_match else [{'k': 'ty', 'name': 'object'}] * rng.randint(0, 2)
+        j = {'k': 'and', 'cs': oks + [rejected(rng, g, t, in_match)], 'dflt': dflt}
+    elif host == 'coalesce':
+        j = {'k': 'coalesce', 'subs': [rejected(rng, g, t) for _ in range(n)], 'dflt': dflt, 'dflt_factory': None,
+             'skip': None, 'skip_exc': ['GlomError']}
+        if rng.random() < 0.3:
+            # branches ended by a non-glom exception with its own __str__, caught through skip_exc
+            j['subs'][rng.randrange(n)] = g.fn(rng.choice(['x_key', 'x_key_lookup', 'x_ownstr_key']))
+            j['skip_exc'] = ['GlomError', 'KeyError']
+    elif host == 'match':
+        pat = rng.choice([{'k': 'ty', 'name': rng.choice(other_types(t))},
+                          {'k': 'switch', 'cases': [[rejected(rng, g, t, True), T0] for _ in range(n)], 'dflt': None},
+                          {'k': 'or', 'cs': [rejected(rng, g, t, True) for _ in range(n)], 'dflt': None}])
+        return {'k': 'match', 's': pat, 'dflt': dflt}
+    else:
+        sub = rng.choice([None, T0, {'k': 'specW', 's': T0, 'scope': []}])
+        kw = rng.choice([{'type': rng.choice(other_types(t))}, {'instance_of': rng.choice(other_types(t))},
+                         {'equal_to': ic.enc('never equal')}])
+        return g.check(sub, dflt, **kw)
+    return {'k': 'match', 's': j, 'dflt': None} if in_match else j
+
+
+def default_raises(rng, g, t):
+    """… placed bare, as a later step of a chain, as a dict value, as the last branch of an outer Coalesce / Or"""
+    spec = default_raises_host(rng, g, t)
+    T0 = {'k': 't', 'steps': []}
+    w = rng.random()
+    if w < 0.2:
+        spec = {'k': rng.choice(['tuple', 'pipe']), 'xs': [T0] * rng.randint(1, 2) + [spec]}
+    elif w < 0.32:
+        spec = {'k': 'dict', 'es': [[{'k': 'str', 's': 'k'}, spec]]}
+    elif w < 0.44:
+        spec = {'k': 'coalesce', 'subs': [{'k': 'str', 's': 'zz'}, spec], 'dflt': None, 'dflt_factory': None, 'skip': None,
+                'skip_exc': ['KeyError']}
+    elif w < 0.52:
+        spec = {'k': 'or', 'cs': [{'k': 'str', 's': 'zz'}, spec], 'dflt': None}
+    elif w < 0.6:
+        spec = {'k': 'specW', 's': spec, 'scope': []}
+    return spec
+
+
 SELFREF_POS = ['coalesce_default', 's_kw', 'call_arg', 'invoke_spec', 't_method', 'fill']
 
 
@@ -476,20 +593,33 @@ def generate(rng, tier, scale, **focus):
     tries = 0
     while made < want and tries < want * 12:
         tries += 1
-        g = Gen(rng, {'extra': ['wrap', 'switch', 'and', 'not', 'bindchain', 'coalesce', 'coalesce', 'coalesce'],
-                      'scope': True})
+        g = C05Gen(rng, {'extra': ['wrap', 'switch', 'and', 'not', 'bindchain', 'coalesce', 'coalesce', 'coalesce'],
+                         'scope': True})
+        # in 40% of the cases every leaf position is, with probability 0.08, a callable raising a non-glom exception
+        g.p_raise = 0.08 if rng.random() < 0.4 else 0.0
         t = big_target(rng)
         if t is None:
             t = g.target()
         depth = rng.choice([2, 3, 3]) if tier == 'quick' else rng.choice([2, 3, 3, 4])
         spec = g.spec(t, depth)
-        if rng.random() < 0.1:
+        q = rng.random()
+        if q < 0.1:
             spec = returned_below(rng, g)
             if rng.random() < 0.5:
                 t = {'a': 1}
+        elif q < 0.22:
+            # a branching spec all of whose branches fail and whose default= is a spec that raises
+            spec = default_raises(rng, g, t)
         if rng.random() < 0.08:
             # the original error has a multi-line message (blank and caret-only lines included)
-            spec = {'k': rng.choice(['tuple', 'pipe']), 'xs': [spec, g.fn(rng.choice(['raise_multiline', 'nested_glom_fail']))]}
+            spec = {'k': rng.choice(['tuple', 'pipe']), 'xs': [spec, g.fn(rng.choice(['raise_multiline', 'nested_glom_fail',
+                                                                                   'x_multistr', 'x_syntax']))]}
+        if rng.random() < 0.12:
+            # one leaf position (a callable, a T expression, a str path -- also the function of a Call / Invoke,
+            # a Switch key, a default) is a callable raising a non-glom exception
+            pos = leaf_positions(spec)
+            if pos:
+                spec = replace_at(spec, rng.choice(pos), g.xfn())
         case = {'spec': spec, 'target': ic.enc(t), 'width': rng.choice(WIDTHS), '_gen': True}
         if rng.random() < 0.03:
             # a self-referential container below which a T leaf fails: str(exc) must still work
